@@ -5,6 +5,7 @@ package main
 // (fields deleted, permuted, added). Also the read-direction generators (C03, C04).
 
 import (
+	"bytes"
 	"fmt"
 	"strings"
 )
@@ -40,7 +41,8 @@ func (g *tgen) target(s *asch) (sx, bool) {
 	}
 	switch s.kind {
 	case "null":
-		return A("bool"), true // a null-typed field decodes into nothing; any Go type is left untouched
+		// a null-typed field decodes into nothing; any Go type is left untouched (several widths)
+		return []sx{A("bool"), A("bool"), tInt(64), tString, tInt(32)}[r.Intn(5)], true
 	case "boolean":
 		return ptr(A("bool")), true
 	case "int", "long":
@@ -259,6 +261,71 @@ func genRD(c *ctx) {
 			empty := T("struct", hs("E"), hs(""), T("field", hs("Zz"), A("true"), hs("no_such_field"), hs(""), tInt(64)))
 			c.emit(T("cread", append([]sx{empty, sch, H(bs)}, extra...)...))
 		}
+	}
+	// arrays (and maps) of ZERO-WIDTH items with more items than bytes left, as the last field of the record, read,
+	// skipped and projected away; three pointers to a wide fixed value from one bank
+	{
+		w := &wgen{rng: c.rng, maxDepth: 1}
+		emitAll := func(s *asch, v *aval, sized bool) {
+			p := w.plan(s, v, sized)
+			bs := encodeSpec(p, s, v)
+			sch := schemaSx(s.toSchema())
+			extra := []sx{s.sx(), v.sx(), p.sx(), I(0)}
+			full := (&tgen{wgen: w}).structFor(s)
+			c.emit(T("cread", append([]sx{full, sch, H(bs)}, extra...)...))
+			c.emit(T("cskip", append([]sx{full, sch, H(bs)}, extra...)...))
+			none := T("struct", hs("E"), hs(""), T("field", hs("Zz"), A("true"), hs("no_such_field"), hs(""), tInt(64)))
+			c.emit(T("cread", append([]sx{none, sch, H(bs)}, extra...)...))
+		}
+		nulls := func(n int) []*aval {
+			out := make([]*aval, n)
+			for i := range out {
+				out[i] = &aval{kind: "null"}
+			}
+			return out
+		}
+		for _, n := range []int{3, 40, 300} {
+			for _, sized := range []bool{false, true} {
+				s := &asch{kind: "record", recName: "Zw", names: []string{"id", "zs"}, fields: []*asch{{kind: "long"}, {kind: "array", items: &asch{kind: "null"}}}}
+				v := &aval{kind: "record", vs: []*aval{{kind: "int", i: int64(n)}, {kind: "array", vs: nulls(n)}}}
+				emitAll(s, v, sized)
+				er := &asch{kind: "record", recName: "Empty"}
+				s2 := &asch{kind: "record", recName: "Zw2", names: []string{"id", "zs"}, fields: []*asch{{kind: "long"}, {kind: "array", items: er}}}
+				recs := make([]*aval, n)
+				for i := range recs {
+					recs[i] = &aval{kind: "record"}
+				}
+				emitAll(s2, &aval{kind: "record", vs: []*aval{{kind: "int", i: 7}, {kind: "array", vs: recs}}}, sized)
+			}
+		}
+		// a case that fills a bank with pointer-sized slots, then (same bank, recycled) null-valued maps whose Go
+		// element types are wider than a word: the values must be zero whatever the bank held before
+		for rep := 0; rep < 3; rep++ {
+			sp := &asch{kind: "record", recName: "Pp", names: []string{"ps"}, fields: []*asch{{kind: "array", items: &asch{kind: "long"}}}}
+			items := make([]*aval, 40)
+			for i := range items {
+				items[i] = &aval{kind: "int", i: int64(0x0101010101010101 * (i + 1))}
+			}
+			vp := &aval{kind: "record", vs: []*aval{{kind: "array", vs: items}}}
+			pp := w.plan(sp, vp, false)
+			typ := T("struct", hs("Pp"), hs(""), T("field", hs("Ps"), A("true"), hs("ps"), hs(""), T("slice", T("ptr", T("ptr", tInt(64))))))
+			c.emit(T("cread", typ, schemaSx(sp.toSchema()), H(encodeSpec(pp, sp, vp)), sp.sx(), vp.sx(), pp.sx(), I(0)))
+			sm := &asch{kind: "record", recName: "Mn", names: []string{"m"}, fields: []*asch{{kind: "map", items: &asch{kind: "null"}}}}
+			vm := &aval{kind: "record", vs: []*aval{{kind: "map", keys: [][]byte{[]byte("a"), []byte("b"), []byte("c"), []byte("d"), []byte("e")}, vs: nulls(5)}}}
+			pm := w.plan(sm, vm, false)
+			for _, elem := range []sx{tString, T("struct", hs(""), hs(""), T("field", hs("A"), A("true"), hs("a"), hs(""), tInt(64)), T("field", hs("B"), A("true"), hs("b"), hs(""), tInt(64)), T("field", hs("C"), A("true"), hs("c"), hs(""), tInt(64)))} {
+				tym := T("struct", hs("Mn"), hs(""), T("field", hs("M"), A("true"), hs("m"), hs(""), T("map", tString, elem)))
+				c.emit(T("cread", tym, schemaSx(sm.toSchema()), H(encodeSpec(pm, sm, vm)), sm.sx(), vm.sx(), pm.sx(), I(0)))
+			}
+		}
+		fx := func(name string) *asch { return &asch{kind: "fixed", n: 40, fname: name} }
+		s3 := &asch{kind: "record", recName: "Fx", names: []string{"a", "b", "c"}, fields: []*asch{fx("fa"), fx("fb"), fx("fc")}}
+		mk := func(b byte) *aval { return &aval{kind: "bytes", bs: bytes.Repeat([]byte{b}, 40)} }
+		v3 := &aval{kind: "record", vs: []*aval{mk(0x11), mk(0x22), mk(0x33)}}
+		arr := T("ptr", T("array", I(40), T("uint", I(8))))
+		ty3 := T("struct", hs("P"), hs(""), T("field", hs("A"), A("true"), hs("a"), hs(""), arr), T("field", hs("B"), A("true"), hs("b"), hs(""), arr), T("field", hs("C"), A("true"), hs("c"), hs(""), arr))
+		p3 := w.plan(s3, v3, false)
+		c.emit(T("cread", ty3, schemaSx(s3.toSchema()), H(encodeSpec(p3, s3, v3)), s3.sx(), v3.sx(), p3.sx(), I(0)))
 	}
 	// unions with more branches than a one-byte selector can number (0..63), read and skipped, every interesting branch
 	for _, k := range []int{65, 70, 130} {
